@@ -476,6 +476,12 @@ Proof.
   destruct (N.ltb_spec flen (end_or_0 (r_segs s))); [lia|reflexivity].
 Qed.
 
+Lemma cfs_go_truthful now (s : rstate) : PH s -> r_phase s = RecvData -> cfs_go now flen s = true.
+Proof.
+  intros (P1 & _) Hp. unfold cfs_go. pose proof (end_le_flen s (P1 Hp)) as Hle.
+  destruct (N.ltb_spec flen (end_or_0 (r_segs s))); [lia|reflexivity].
+Qed.
+
 Lemma DG_process_pdu now p s : DU s -> truthful_in (RPdu p) -> DG (fst (process_pdu now p s)).
 Proof.
   intros H Ht. unfold Recv.process_pdu.
@@ -529,6 +535,7 @@ Proof.
     destruct (cond_eqb (r_cond s1) NoError) eqn:Ece; [|left; apply DU_cancel_; exact H1].
     apply cond_eqb_eq in Ece. rewrite Ec in Ece. cbn in Ht. specialize (Ht Ece).
     rewrite Ht. destruct H1 as (F1 & P1). rewrite (check_file_size_truthful now s1 P1 Hp1).
+    rewrite (cfs_go_truthful now s1 P1 Hp1).
     assert (H3 : DU (set_r_fsize (Some flen) s1)) by (apply DU_set_fsize; [split; assumption|reflexivity]).
     destruct H3 as (F3 & P3).
     pose proof (FI_finalize now _ F3 P3 Hp1) as H4.
